@@ -179,10 +179,11 @@ func lexInput(l *lexer) lexStateFn {
 		// we will put this in the stream. if a file is formatted
 		// properly, and invalid input should be after an 'end'
 		// pseudo-op which will cause the parser to stop before
-		// processing this token, otherwise it is an error
+		// processing this token, otherwise it is an error. the rest
+		// of the input is still lexed: the token may sit in a block
+		// that is never expanded, and what follows must not be lost
 		l.tokens <- token{tokInvalid, string(l.nextRune)}
-		l.tokens <- token{typ: tokEOF}
-		return nil
+		return l.consume(lexInput)
 	}
 
 	return nil
